@@ -4,6 +4,7 @@ package c06
 import (
 	"context"
 	"fmt"
+	"io"
 	"regexp"
 	"runtime"
 	"strings"
@@ -63,7 +64,9 @@ type scenario struct {
 	TS       time.Time
 	ViaVerb  bool
 	DateFlag bool
-	Recolour int // 0: no; otherwise SetLevelColors(severity, ...) with one of a few fg/bg pairs before logging
+	How      int  // how the logger becomes colored: 0 SetColorMode(true), 1 option of New, 2 option of New on a JSON parent, 3 WithColorMode method on a logfmt parent
+	PreLog   bool // a colored record at the same (then still unregistered) level value is emitted BEFORE the custom levels are registered
+	Recolour int  // 0: no; otherwise SetLevelColors(severity, ...) with one of a few fg/bg pairs before logging
 }
 
 func here() uintptr {
@@ -105,6 +108,12 @@ func hasTopLevelError(as []vlib.ExpAttr) bool {
 
 func run(t vlib.TB, test string, sc scenario, thruAttrs slog.Attrs, args []any) {
 	defer vlib.Canon()()
+	if sc.PreLog {
+		// whatever the package may remember about a level value while it is unregistered must not survive its registration
+		pre := slog.New("prelog").SetColorMode(true).SetWriter(io.Discard).SetErrorWriter(io.Discard).SetLevel(slog.AlwaysLevel)
+		slog.SetLevelOutputWidth(sc.TagW)
+		pre.LogAttrs(context.Background(), sc.Sev, "before registration")
+	}
 	_ = slog.RegisterLevel(custTagged, "notice", slog.RegWithShortTags(custTags), slog.RegWithColor(color.FgWhite, color.BgUnderline), slog.RegWithTreatedAsLevel(slog.InfoLevel))
 	_ = slog.RegisterLevel(custPlain, "plainlvl")
 	flags := vlib.BaseFlags
@@ -128,13 +137,27 @@ func run(t vlib.TB, test string, sc scenario, thruAttrs slog.Attrs, args []any) 
 	w := vlib.NewRec(log, 1, 0)
 	name := ""
 	var lg slog.Logger
-	if sc.Named {
+	switch {
+	case sc.How == 1 && sc.Named:
 		name = "svc"
-		lg = slog.New(name)
-	} else {
-		lg = slog.New()
+		lg = slog.New(name, slog.WithColorMode(true))
+	case sc.How == 2:
+		parent := slog.New("jsonparent").SetJSONMode(true)
+		lg = parent.New("svckid", slog.WithColorMode())
+		name = "svckid"
+	case sc.How == 3:
+		parent := slog.New("lfparent").SetColorMode(false)
+		lg = parent.WithColorMode(true)
+		name = lg.Name()
+	default:
+		if sc.Named {
+			name = "svc"
+			lg = slog.New(name)
+		} else {
+			lg = slog.New()
+		}
+		lg.SetColorMode(true)
 	}
-	lg.SetColorMode(true)
 	lg.SetWriter(w)
 	lg.SetErrorWriter(w)
 	lg.SetLevel(slog.AlwaysLevel)
@@ -230,7 +253,7 @@ func run(t vlib.TB, test string, sc scenario, thruAttrs slog.Attrs, args []any) 
 			}
 			head = lines[0][:i+2]
 		}
-		if sc.Named {
+		if name != "" {
 			head += name + " "
 		}
 		tag := expectedTag(sc.Sev, sc.TagW)
@@ -325,6 +348,12 @@ func run(t vlib.TB, test string, sc scenario, thruAttrs slog.Attrs, args []any) 
 	if sc.Recolour > 0 {
 		set["level-colours-changed"] = true
 		nt = true
+	}
+	if sc.PreLog {
+		set["logged-before-registration"] = true
+	}
+	if sc.How > 0 {
+		set[fmt.Sprintf("colored-set-how-%d", sc.How)] = true
 	}
 	if sc.TagW != 3 || sc.MsgW != 36 {
 		set["non-default-widths"] = true
@@ -442,6 +471,8 @@ func genScenario(t *rapid.T) (scenario, slog.Attrs, []any) {
 	sc.Named = rapid.Bool().Draw(t, "named")
 	sc.DateFlag = rapid.IntRange(0, 3).Draw(t, "dateflag") == 0
 	sc.Recolour = rapid.SampledFrom([]int{0, 0, 0, 1, 2, 3, 4}).Draw(t, "recolour")
+	sc.How = rapid.SampledFrom([]int{0, 0, 1, 2, 3}).Draw(t, "howColoredIsSet")
+	sc.PreLog = rapid.IntRange(0, 3).Draw(t, "preLogWhileUnregistered") == 0
 	sc.TS = vlib.GenTime().Draw(t, "ts")
 	sc.ViaVerb = rapid.IntRange(0, 3).Draw(t, "viaVerb") == 0
 	g := vlib.AttrGen{Keys: genKey(), MaxDepth: 3, MaxLen: 5, UniqueKeys: true}
